@@ -114,10 +114,11 @@ type World struct {
 	merger, persister *vs.Thread
 	mains             map[int]bool // thread ids that are never auto-run as helpers
 
-	gateFlag bool // persister may leave the gate
-	gateMode int  // 1 success, 2 fail
-	inGate   bool
-	gateOff  bool // teardown: gate is transparent
+	gateFlag   bool // persister may leave the gate
+	gateMode   int  // 1 success, 2 fail
+	inGate     bool
+	gateHigher string
+	gateOff    bool // teardown: gate is transparent
 
 	ll        map[string]string
 	llUpdates []llUpdate
@@ -239,6 +240,7 @@ func (w *World) gate(orig moss.LowerLevelUpdate) moss.LowerLevelUpdate {
 	return func(higher moss.Snapshot) (moss.Snapshot, error) {
 		if !w.gateOff {
 			w.inGate = true
+			w.gateHigher = shortHash(moss.VerifSnapshotKey(higher)) // what the persister holds while parked (a thread-local of moss)
 			vs.Block("llu-gate", &w.gateFlag)
 			w.gateFlag = false
 			w.inGate = false
@@ -703,6 +705,9 @@ func (w *World) key(withRefs bool) string {
 		sb.WriteString(" DIR=" + w.dirListing())
 	}
 	fmt.Fprintf(&sb, " gate=%v pend=%v m=%s p=%s", w.inGate, w.pending != nil, threadPos(w.s, w.merger), threadPos(w.s, w.persister))
+	if w.inGate {
+		sb.WriteString(" higher=" + w.gateHigher)
+	}
 	if len(w.obsMerger) > 0 {
 		sb.WriteString(" om=" + strings.Join(w.obsMerger, "."))
 	}
